@@ -705,7 +705,7 @@ func (h *ResponseHeader) ParseSetCookie(value []byte) {
 func (h *ResponseHeader) peek(key string) []byte {
 	switch key {
 	case consts.HeaderContentType:
-		return h.ContentType()
+		return presentOrNil(h.ContentType())
 	case consts.HeaderContentEncoding:
 		return presentOrNil(h.ContentEncoding())
 	case consts.HeaderServer:
